@@ -72,7 +72,7 @@ func (u *UEPolicySectionManagementSubResult) SetPlmnDigit(mcc, mnc int) error {
 	if *u.Mcc < 99 || *u.Mcc > 999 {
 		return fmt.Errorf("MCC must be positive 3-digit, mcc:%d", u.Mcc)
 	}
-	if *u.Mnc < 9 || *u.Mcc > 999 {
+	if *u.Mnc < 9 || *u.Mnc > 999 {
 		return fmt.Errorf("MCC must be positive 2 or 3-digit, mnc:%d", u.Mnc)
 	}
 	// PlmnDigit1
